@@ -229,11 +229,17 @@ def r3(idx, rep):
     order = ["%Y", "%m", "%d", "%H", "%M", "%S"]
     rep.check(toks == order, "R3", f"{fw.file}::run directory format fields",
               f"strftime format {wf!r} has fields {toks}; names order chronologically only with zero-padded fields in descending significance {order} (a 12-hour %I makes 13:00 sort before 12:59)", K.where(fw, fw.node))
+    # the name of a run that has a run time is that time in the format above, on every path
+    it = Interp(idx, types={"self": "ResultSerializer"}, unknown_calls="error", handlers={"dt.strftime": lambda i, c, r, a, k: ("strftime", a[0])})
+    ps = it.run_all(fw, args={"dt": Obj("dt")})
+    rep.check(len(ps) == 1 and ps[0].result == ("return", ("strftime", wf)), "R3", f"{fw.file}::run directory name is the formatted run time",
+              f"for a run time dt the function ends in {[p.result for p in ps]}, documented dt.strftime({wf!r})", K.where(fw, fw.node))
     rep.check(not re.search(r"%-|%#", wf), "R3", f"{fw.file}::run directory format padding", f"{wf!r} uses an unpadded directive", K.where(fw, fw.node))
     base = [r for r in rfs if not r.endswith(".%f")]
     frac = [r for r in rfs if r.endswith(".%f")]
-    rep.check(base == [wf], "R3", f"{fr.file}::reader base format equals writer format", f"writer {wf!r} vs reader {base}", K.where(fr, fr.node))
-    rep.check(frac == [wf + ".%f"], "R3", f"{fr.file}::reader suffix format", f"reader formats for '.N' names: {frac}", K.where(fr, fr.node))
+    rep.check(bool(base) and set(base) == {wf}, "R3", f"{fr.file}::reader base format equals writer format", f"writer {wf!r} vs reader {base}", K.where(fr, fr.node))
+    # how the '.N' same-second suffix is ordered is decided by the R5 table; here only: a fractional reader format extends the writer's
+    rep.check(all(r == wf + ".%f" for r in frac), "R3", f"{fr.file}::reader suffix format", f"reader formats for '.N' names: {frac}", K.where(fr, fr.node))
     # a sample of instants sorts the same by name and by time (decided on the format, not by running the repo)
     ts = [datetime.datetime(2026, 1, 2, 12, 59, 59), datetime.datetime(2026, 1, 2, 13, 0, 0), datetime.datetime(2026, 1, 2, 23, 59, 59),
           datetime.datetime(2026, 1, 3, 0, 0, 0), datetime.datetime(2026, 1, 3, 9, 5, 7), datetime.datetime(2026, 10, 3, 1, 0, 0), datetime.datetime(2026, 2, 3, 1, 0, 0)]
@@ -380,16 +386,24 @@ def r5(idx, rep):
                 want = name(max(times)) if last else name(min(times))
                 if len(ps) != 1 or ps[0].result != ("return", want):
                     bad = bad or f"{label}: listing {names} prefix {prefix!r} {'last' if last else 'first'} → {ps[0].result}, documented {want!r}"
-    # same-second runs with .N suffixes: later suffix = later run (up to 10, see DESIGN)
+    # same-second runs: get_run_dir names them <ts>, <ts>.0, <ts>.1, … in that order (R2), so a later suffix is a later run and the
+    # bare name is the earliest; every listing order os.listdir may produce (as made, reversed, two fixed shuffles)
     t0 = d(2026, 1, 2, 3, 4, 5)
-    names = [name(t0), name(t0, 0), name(t0, 1), name(d(2026, 1, 2, 3, 4, 4))]
-    for last, want in ((True, name(t0, 1)), (False, name(d(2026, 1, 2, 3, 4, 4)))):
-        it = Interp(idx, types={"self": "ResultsManager"}, unknown_calls="residual",
-                    handlers={"datetime.datetime.strptime": strptime, "datetime.strptime": strptime})
-        ps = it.run_all(fi, args={"instance": "2026-01-02_03-04", "names": list(reversed(names)), "last": last})
-        n += 1
-        if len(ps) != 1 or ps[0].result != ("return", want):
-            bad = bad or f"same-second runs {names}: {'last' if last else 'first'} → {ps[0].result}, documented {want!r}"
+    before, after = name(d(2026, 1, 2, 3, 4, 4)), name(d(2026, 1, 2, 3, 4, 6))
+    for k in (0, 1, 2, 10, 11, 12):
+        same = [name(t0)] + [name(t0, j) for j in range(k)]
+        for extra, w_first, w_last in (([], same[0], same[-1]), ([before], before, same[-1]), ([after], same[0], after)):
+            base = same + extra
+            orders = [list(base), list(reversed(base)), base[1::2] + base[0::2], base[2::3] + base[0::3] + base[1::3]]
+            for names in orders:
+                for last, want in ((True, w_last), (False, w_first)):
+                    it = Interp(idx, types={"self": "ResultsManager"}, unknown_calls="residual",
+                                handlers={"datetime.datetime.strptime": strptime, "datetime.strptime": strptime})
+                    ps = it.run_all(fi, args={"instance": "2026-01-02_03-04", "names": list(names), "last": last})
+                    n += 1
+                    if len(ps) != 1 or ps[0].result != ("return", want):
+                        bad = bad or (f"{k + 1} runs in one second, directory listing {names}: {'last' if last else 'first'} → {ps[0].result}, documented {want!r} "
+                                      "(<ts> is the first run of the second, <ts>.N the N+2th)")
     # no run with the prefix → None
     it = Interp(idx, types={"self": "ResultsManager"}, unknown_calls="residual", handlers={"datetime.datetime.strptime": strptime})
     ps = it.run_all(fi, args={"instance": "2030-", "names": [name(t0)], "last": True})
